@@ -5,9 +5,10 @@ set -u
 export GOFLAGS=-mod=mod GOPROXY=off GOSUMDB=off GOTOOLCHAIN=local
 cd /verif
 bad=0; n=0
+CHECKS="${CHECKS:-C01 C02 C03 C04 C05 C06 C07 C08 C09 C10 C11 C12 C13 C14 C15 C16 C17 C18 C19 C20}"
 for d in benign/${1:-*}/; do
   id=$(basename $d); n=$((n+1))
-  res=$(tools/mut.sh $d/patch.diff C01 C02 C03 C04 C05 C06 C07 C08 C09 C10 C11 C12 C13 C14 C15 C16 C17 C18 C19 C20 2>&1)
+  res=$(tools/mut.sh $d/patch.diff $CHECKS 2>&1)
   loud=$(echo "$res" | grep -v "violations=0 inconclusive=0")
   if [ -n "$loud" ]; then bad=$((bad+1)); echo "$id NOT SILENT:"; echo "$loud" | cut -c1-240; else echo "$id silent"; fi
 done
